@@ -181,6 +181,36 @@ def discharge(path, claim, timeout_ms=20000, portfolio=False, range_assumptions=
     def done(status, how, model=None, kappa=None):
         return Verdict(status, how, model, time.time() - t0, kappa, queries)
 
+    # stage 0: only the hypotheses that speak about the claim's own variables (dropping hypotheses is sound
+    # for a validity proof; a `sat` answer here is ignored)
+    gv = _sym.term_vars(goal)
+    local = [c for c, cv in allc if cv and cv <= gv]
+    if len(local) < len(base[0]):
+        neg0 = z3.Not(claim.t) if claim.kind == 'bool' else (claim.a != claim.b)
+        if not (claim.kind == 'bool' and z3.is_true(z3.simplify(claim.t))):
+            queries += 1
+            r0, m0, _, _ = _check((local,), neg0, min(timeout_ms, 3000))
+            if r0 == 'unsat':
+                return done('unsat', 'direct-local')
+            if r0 == 'sat' and claim.kind == 'eq':
+                # rounded constants: a == kappa*b with |kappa - 1| <= 1e-9 ?
+                try:
+                    va, vb = model_value(m0, claim.a), model_value(m0, claim.b)
+                    if va != 0 and vb != 0 and abs(va / vb - 1) <= REL_TOL:
+                        k0 = va / vb
+                        queries += 1
+                        r1, _m1, _, _ = _check((local,), claim.a != z3.RatVal(k0.numerator, k0.denominator) * claim.b, min(timeout_ms, 3000))
+                        if r1 == 'unsat':
+                            return done('unsat', 'proportional-local', kappa=float(k0))
+                        absb0 = z3.If(claim.b >= 0, claim.b, -claim.b)
+                        tol0 = z3.RatVal(1, 10**9) * absb0
+                        queries += 1
+                        r2, _m2, _, _ = _check((local,), z3.Or(claim.a - claim.b > tol0, claim.b - claim.a > tol0), min(timeout_ms, 3000))
+                        if r2 == 'unsat':
+                            return done('unsat', 'tolerance-local 1e-9')
+                except Unsupported:
+                    pass
+
     if claim.kind == 'bool':
         if z3.is_true(z3.simplify(claim.t)):
             return done('unsat', 'trivial')
